@@ -20,6 +20,11 @@ class MachineMixin(object):
 
     def do(self, op):
         """Record and execute one op; raises on findings."""
+        if self.COL.failing is not None:
+            self.COL.calls_after_fail += 1
+            if self.COL.shrink_exhausted():
+                self.failed = True
+                raise StepFailure("shrink budget exhausted")
         self.case["ops"].append(op)
         findings = self.stepper.step(op)
         if findings:
